@@ -188,6 +188,10 @@ def run(M, rep, tier, only=None):
                       "differs from what iteration, length and positional access of the same container show" % (
                           cn10, nm10, show(bad10[1].recv.t)[:60] if bad10 else ""), site=bad10[1].site if bad10 else None,
                       detail=describe_path(bad10[0]) if bad10 else None)
+    R11 = rep.rule("C03.R11", "membership, length, iteration and lookup of the layer's group wrapper all see the group through the same "
+                   "refreshing accessor", floor=1, technique="who-may-read a field over the layer class (shared with C02.R8)")
+    from .c02 import group_readers_rule
+    group_readers_rule(M, rep, R11)
     R9 = rep.rule("C03.R9", "lookup by id returns only a child whose stored entity_id was compared equal to the id asked for", floor=1,
                   technique="guard of every returning path of the layer's id lookup (raw mode)")
     hg9 = M.classes.get("H5Group")
